@@ -9,13 +9,17 @@ open Usual.C14
 
 /-! ## completeness of the single-retry loop: generic facts about `Matches` -/
 
+def isStar : Tok → Bool
+  | .star _ => true
+  | _ => false
+
 /-- a one-character token `t` accepts the character `x` -/
 def tokWild (fl : FnFlags) (t : Tok) (x : Nat) : Bool :=
   match t with
   | .lit c => cmpFold fl c x
   | .any => okWild fl x
   | .cls n it => okWild fl x && classHas fl n it x
-  | .star => false
+  | .star _ => false
   | .never => false
 
 /-- a star-free run of tokens matches a string character by character -/
@@ -36,20 +40,20 @@ theorem matches_one (fl : FnFlags) (t : Tok) (x : Nat) (ts : List Tok) (s : List
   | never => simp [tokWild] at h
 
 theorem matches_one_inv (fl : FnFlags) (t : Tok) (ts : List Tok) (X : List Nat)
-    (ht : t ≠ .star) (hm : Matches fl (t :: ts) X) :
+    (ht : isStar t = false) (hm : Matches fl (t :: ts) X) :
     ∃ x s, X = x :: s ∧ tokWild fl t x = true ∧ Matches fl ts s := by
   cases hm with
   | lit c x ts s h1 h2 => exact ⟨x, s, rfl, h1, h2⟩
   | any x ts s h1 h2 => exact ⟨x, s, rfl, h1, h2⟩
   | cls n it x ts s h1 h2 h3 => exact ⟨x, s, rfl, by simp [tokWild, h1, h2], h3⟩
-  | star0 ts s h => exact absurd rfl ht
-  | starS x ts s h1 h2 => exact absurd rfl ht
+  | star0 m ts s h => simp [isStar] at ht
+  | starS m x ts s h1 h2 => simp [isStar] at ht
 
-theorem star_inv (fl : FnFlags) (ts : List Tok) (s : List Nat) (hm : Matches fl (.star :: ts) s) :
-    Matches fl ts s ∨ ∃ x r, s = x :: r ∧ okWild fl x = true ∧ Matches fl (.star :: ts) r := by
+theorem star_inv (fl : FnFlags) (m : Bool) (ts : List Tok) (s : List Nat) (hm : Matches fl (.star m :: ts) s) :
+    Matches fl ts s ∨ ∃ x r, s = x :: r ∧ okWild fl x = true ∧ Matches fl (.star m :: ts) r := by
   cases hm with
-  | star0 ts s h => exact .inl h
-  | starS x ts s h1 h2 => exact .inr ⟨x, s, rfl, h1, h2⟩
+  | star0 m ts s h => exact .inl h
+  | starS m x ts s h1 h2 => exact .inr ⟨x, s, rfl, h1, h2⟩
 
 theorem no_never (fl : FnFlags) (ts : List Tok) (s : List Nat) (hm : Matches fl ts s) : Tok.never ∉ ts := by
   induction hm with
@@ -58,8 +62,8 @@ theorem no_never (fl : FnFlags) (ts : List Tok) (s : List Nat) (hm : Matches fl 
   | lit c x ts s _ _ ih => simp [ih]
   | any x ts s _ _ ih => simp [ih]
   | cls n it x ts s _ _ _ ih => simp [ih]
-  | star0 ts s _ ih => simp [ih]
-  | starS x ts s _ _ ih => exact ih
+  | star0 m ts s _ ih => simp [ih]
+  | starS m x ts s _ _ ih => exact ih
 
 theorem segM_length (fl : FnFlags) : ∀ (seg : List Tok) (pre : List Nat), segM fl seg pre = true → pre.length = seg.length
   | [], [], _ => rfl
@@ -79,7 +83,7 @@ theorem segM_snoc (fl : FnFlags) : ∀ (seg : List Tok) (pre : List Nat) (t : To
     exact ⟨h.1, segM_snoc fl ts r t x h.2 ht⟩
 
 theorem segM_ne_star (fl : FnFlags) : ∀ (seg : List Tok) (pre : List Nat), segM fl seg pre = true →
-    ∀ t ∈ seg, t ≠ .star
+    ∀ t ∈ seg, isStar t = false
   | [], _, _ => by simp
   | _ :: _, [], h => by simp [segM] at h
   | u :: ts, y :: r, h => by
@@ -87,7 +91,8 @@ theorem segM_ne_star (fl : FnFlags) : ∀ (seg : List Tok) (pre : List Nat), seg
     intro t ht
     simp only [List.mem_cons] at ht
     rcases ht with rfl | ht
-    · intro he; subst he; simp [tokWild] at h
+    · have h1 := h.1
+      cases t <;> simp [tokWild, isStar] at h1 ⊢
     · exact segM_ne_star fl ts r h.2 t ht
 
 /-- determinism of a star-free prefix -/
@@ -98,7 +103,7 @@ theorem seg_strip (fl : FnFlags) : ∀ (seg : List Tok) (pre : List Nat) (T : Li
   | _ :: _, [], _, _, h, _ => by simp [segM] at h
   | u :: ts, y :: r, T, Y, h, hm => by
     simp only [segM, Bool.and_eq_true] at h
-    have hu : u ≠ .star := by intro he; subst he; simp [tokWild] at h
+    have hu : isStar u = false := by cases u <;> simp [tokWild, isStar] at h ⊢
     obtain ⟨x, s, he, _, hm'⟩ := matches_one_inv fl u (ts ++ T) _ hu hm
     simp only [List.cons_append, List.cons.injEq] at he
     obtain ⟨rfl, rfl⟩ := he
@@ -115,7 +120,7 @@ theorem seg_glue (fl : FnFlags) : ∀ (seg : List Tok) (pre : List Nat) (T : Lis
 
 /-- a star-free prefix consumes exactly its length -/
 theorem seg_split (fl : FnFlags) : ∀ (seg : List Tok) (T : List Tok) (X : List Nat),
-    (∀ t ∈ seg, t ≠ .star) → Matches fl (seg ++ T) X →
+    (∀ t ∈ seg, isStar t = false) → Matches fl (seg ++ T) X →
     ∃ pre Y, X = pre ++ Y ∧ segM fl seg pre = true ∧ Matches fl T Y
   | [], T, X, _, hm => ⟨[], X, rfl, rfl, hm⟩
   | u :: ts, T, X, hs, hm => by
@@ -123,18 +128,18 @@ theorem seg_split (fl : FnFlags) : ∀ (seg : List Tok) (T : List Tok) (X : List
     obtain ⟨pre, Y, rfl, h1, h2⟩ := seg_split fl ts T s (fun t ht => hs t (by simp [ht])) hm'
     exact ⟨x :: pre, Y, rfl, by simp [segM, hx, h1], h2⟩
 
-theorem star_decomp (fl : FnFlags) (U : List Tok) : ∀ (X : List Nat), Matches fl (.star :: U) X →
+theorem star_decomp (fl : FnFlags) (m : Bool) (U : List Tok) : ∀ (X : List Nat), Matches fl (.star m :: U) X →
     ∃ A R, X = A ++ R ∧ (∀ a ∈ A, okWild fl a = true) ∧ Matches fl U R
   | [], hm => by
-    rcases star_inv fl U [] hm with h | ⟨x, r, he, _, _⟩
+    rcases star_inv fl m U [] hm with h | ⟨x, r, he, _, _⟩
     · exact ⟨[], [], rfl, by simp, h⟩
     · cases he
   | x :: X, hm => by
-    rcases star_inv fl U (x :: X) hm with h | ⟨y, r, he, hy, hm'⟩
+    rcases star_inv fl m U (x :: X) hm with h | ⟨y, r, he, hy, hm'⟩
     · exact ⟨[], x :: X, rfl, by simp, h⟩
     · simp only [List.cons.injEq] at he
       obtain ⟨rfl, rfl⟩ := he
-      obtain ⟨A, R, rfl, hA, hR⟩ := star_decomp fl U X hm'
+      obtain ⟨A, R, rfl, hA, hR⟩ := star_decomp fl m U X hm'
       exact ⟨x :: A, R, rfl, by
         intro a ha
         simp only [List.mem_cons] at ha
@@ -142,11 +147,11 @@ theorem star_decomp (fl : FnFlags) (U : List Tok) : ∀ (X : List Nat), Matches 
         · exact hy
         · exact hA a ha, hR⟩
 
-theorem star_absorb (fl : FnFlags) (T : List Tok) (C : List Nat) : ∀ (W : List Nat),
-    (∀ a ∈ W, okWild fl a = true) → Matches fl (.star :: T) C → Matches fl (.star :: T) (W ++ C)
+theorem star_absorb (fl : FnFlags) (m : Bool) (T : List Tok) (C : List Nat) : ∀ (W : List Nat),
+    (∀ a ∈ W, okWild fl a = true) → Matches fl (.star m :: T) C → Matches fl (.star m :: T) (W ++ C)
   | [], _, hm => hm
   | w :: W, hW, hm =>
-    .starS w T (W ++ C) (hW w (by simp)) (star_absorb fl T C W (fun a ha => hW a (by simp [ha])) hm)
+    .starS m w T (W ++ C) (hW w (by simp)) (star_absorb fl m T C W (fun a ha => hW a (by simp [ha])) hm)
 
 /-! ## the greedy step: a later `*` may take over whatever the earlier one would have skipped -/
 
@@ -234,11 +239,11 @@ theorem all_false_of_getElem? (σ : List Bool) (h : ∀ j, j < σ.length → σ[
 /-- the greedy lemma: the attempt has matched the star-free run `seg` on `pre`; if the earlier
     `*` could still make the whole rest match, then the `*` that follows `seg` can do it from
     where the attempt stands -/
-theorem greedy (fl : FnFlags) (seg : List Tok) (pre : List Nat) (T : List Tok) (Y : List Nat)
+theorem greedy (fl : FnFlags) (m1 m2 : Bool) (seg : List Tok) (pre : List Nat) (T : List Tok) (Y : List Nat)
     (hseg : segM fl seg pre = true)
-    (hm : Matches fl (.star :: (seg ++ .star :: T)) (pre ++ Y)) : Matches fl (.star :: T) Y := by
-  obtain ⟨A, R, hX, hA, hR⟩ := star_decomp fl _ _ hm
-  obtain ⟨B, C, rfl, hB, hC⟩ := seg_split fl seg (.star :: T) R (segM_ne_star fl seg pre hseg) hR
+    (hm : Matches fl (.star m1 :: (seg ++ .star m2 :: T)) (pre ++ Y)) : Matches fl (.star m2 :: T) Y := by
+  obtain ⟨A, R, hX, hA, hR⟩ := star_decomp fl _ _ _ hm
+  obtain ⟨B, C, rfl, hB, hC⟩ := seg_split fl seg (.star m2 :: T) R (segM_ne_star fl seg pre hseg) hR
   have hlp := segM_length fl seg pre hseg
   have hlb := segM_length fl seg B hB
   -- Y = W ++ C with W = the last |A| characters of A ++ B
@@ -253,7 +258,7 @@ theorem greedy (fl : FnFlags) (seg : List Tok) (pre : List Nat) (T : List Tok) (
     rw [h1, ← List.append_assoc, List.drop_append_of_le_length (by simp; omega)]
     congr 2; omega
   rw [hY]
-  apply star_absorb fl T C _ _ hC
+  apply star_absorb fl m2 T C _ _ hC
   -- every character of W may be consumed by a wildcard
   by_cases hp : fl.pathname = true
   · cases A with
@@ -295,7 +300,7 @@ def nz (l : List Nat) : Prop := ∀ c ∈ l, c ≠ 0
 def RInv (fl : FnFlags) (p : List Nat) (s : SPos) (rp : List Nat) (skip : SPos) : Prop :=
   nz rp ∧ nz skip.rest ∧ p.length ≤ rp.length ∧
   (∃ seg pre, toks fl rp = seg ++ toks fl p ∧ skip.rest = pre ++ s.rest ∧ segM fl seg pre = true) ∧
-  Matches fl (.star :: toks fl rp) skip.rest
+  Matches fl (.star (rp.head? == some cDot) :: toks fl rp) skip.rest
 
 def CInv (fl : FnFlags) (p : List Nat) (s : SPos) : Option (List Nat × SPos) → Prop
   | none => Matches fl (toks fl p) s.rest
@@ -334,7 +339,7 @@ theorem cinv_advance (fl : FnFlags) (p p' : List Nat) (t : Tok) (prev : Option N
     (htk : toks fl p = t :: toks fl p') (hx : tokWild fl t x = true) (hlen : p'.length < p.length)
     (hc : CInv fl p ⟨prev, x :: r⟩ retry) :
     CInv fl p' ⟨some x, r⟩ retry ∧ mu p' ⟨some x, r⟩ retry < mu p ⟨prev, x :: r⟩ retry := by
-  have ht : t ≠ .star := by intro he; subst he; simp [tokWild] at hx
+  have ht : isStar t = false := by cases t <;> simp [tokWild, isStar] at hx ⊢
   cases retry with
   | none =>
     simp only [CInv, mu] at hc ⊢
@@ -376,13 +381,13 @@ theorem retry_complete (fl : FnFlags) (hper : fl.period = false) (f : Nat)
       rw [h4, h5] at hm
       exact hnot (seg_strip fl seg pre _ _ h6 hm)
     -- so the `*` must take the next character
-    rcases star_inv fl _ _ h7 with hm | ⟨x, r, hsk, hx, hm⟩
+    rcases star_inv fl _ _ _ h7 with hm | ⟨x, r, hsk, hx, hm⟩
     · exact absurd hm hfail
     · -- the subject is not exhausted
       have hs : s.rest ≠ [] := by
         intro hs
         rw [hs, List.append_nil] at h5
-        obtain ⟨A, R, hX, _, hR⟩ := star_decomp fl _ _ h7
+        obtain ⟨A, R, hX, _, hR⟩ := star_decomp fl _ _ _ h7
         rw [h4] at hR
         obtain ⟨B, Y, rfl, hB, hY⟩ := seg_split fl seg _ R (segM_ne_star fl seg pre h6) hR
         have l1 := segM_length fl seg pre h6
@@ -471,7 +476,7 @@ theorem wfn_complete (fl : FnFlags) (hper : fl.period = false) :
         simp only [List.getD_eq_getElem?_getD, List.getElem?_nil, Option.getD_none, hcf, Bool.not_false, if_true]
         apply retryC
         rw [htk]; intro hm
-        obtain ⟨x, s', he, _, _⟩ := matches_one_inv fl _ _ _ (by simp) hm
+        obtain ⟨x, s', he, _, _⟩ := matches_one_inv fl _ _ _ rfl hm
         cases he
       | cons x r =>
         simp only [List.getD_cons_zero]
@@ -485,7 +490,7 @@ theorem wfn_complete (fl : FnFlags) (hper : fl.period = false) :
           simp only [hcf', Bool.not_false, if_true]
           apply retryC
           rw [htk]; intro hm
-          obtain ⟨x', s', he, hx', _⟩ := matches_one_inv fl _ _ _ (by simp) hm
+          obtain ⟨x', s', he, hx', _⟩ := matches_one_inv fl _ _ _ rfl hm
           simp only [List.cons.injEq] at he
           obtain ⟨rfl, rfl⟩ := he
           simp only [tokWild] at hx'
@@ -520,14 +525,14 @@ theorem wfn_complete (fl : FnFlags) (hper : fl.period = false) :
       · simp only [c1, if_true]
         rw [if_pos c1] at htk
         -- the `*` at hand can make the rest match from here
-        have hstar : Matches fl (.star :: toks fl p1) s.rest := by
+        have hstar : Matches fl (.star (p1.head? == some cDot) :: toks fl p1) s.rest := by
           cases retry with
           | none => simp only [CInv] at hc; rw [htk] at hc; exact hc
           | some rs =>
             obtain ⟨rp, skip⟩ := rs
             obtain ⟨_, _, _, ⟨seg, pre, h4, h5, h6⟩, h7⟩ := hc
             rw [h4, htk, h5] at h7
-            exact greedy fl seg pre _ _ h6 h7
+            exact greedy fl _ _ seg pre _ _ h6 h7
         have hnodot : ¬ ((p1.head? == some cDot && disallow fl s) = true) := by
           intro hcond
           simp only [Bool.and_eq_true, beq_iff_eq] at hcond
@@ -543,15 +548,15 @@ theorem wfn_complete (fl : FnFlags) (hper : fl.period = false) :
             obtain ⟨prev, rest⟩ := s
             cases rest with
             | nil =>
-              rcases star_inv fl _ _ hstar with hm | ⟨x, r, he, _, _⟩
-              · obtain ⟨x, s', he, _, _⟩ := matches_one_inv fl _ _ _ (by simp) hm
+              rcases star_inv fl _ _ _ hstar with hm | ⟨x, r, he, _, _⟩
+              · obtain ⟨x, s', he, _, _⟩ := matches_one_inv fl _ _ _ rfl hm
                 cases he
               · cases he
             | cons x r =>
               rw [disallow_np fl hper] at hd
               have hxw : okWild fl x = false := by simpa using hd
-              rcases star_inv fl _ _ hstar with hm | ⟨x', r', he, hx', _⟩
-              · obtain ⟨x', s', he, hx', _⟩ := matches_one_inv fl _ _ _ (by simp) hm
+              rcases star_inv fl _ _ _ hstar with hm | ⟨x', r', he, hx', _⟩
+              · obtain ⟨x', s', he, hx', _⟩ := matches_one_inv fl _ _ _ rfl hm
                 simp only [List.cons.injEq] at he
                 obtain ⟨rfl, rfl⟩ := he
                 have : x = cDot := cmpFold_nonletter fl cDot x (by decide) (by decide) hx'
@@ -585,7 +590,7 @@ theorem wfn_complete (fl : FnFlags) (hper : fl.period = false) :
           | nil =>
             simp only [disallow_nil, if_true]
             apply retryC; rw [htk]; intro hm
-            obtain ⟨x, s', he, _, _⟩ := matches_one_inv fl _ _ _ (by simp) hm
+            obtain ⟨x, s', he, _, _⟩ := matches_one_inv fl _ _ _ rfl hm
             cases he
           | cons x r =>
             rw [disallow_np fl hper]
@@ -596,7 +601,7 @@ theorem wfn_complete (fl : FnFlags) (hper : fl.period = false) :
             · have hx' : okWild fl x = false := by simpa using hx
               simp only [hx', Bool.not_false, if_true]
               apply retryC; rw [htk]; intro hm
-              obtain ⟨x', s', he, hw, _⟩ := matches_one_inv fl _ _ _ (by simp) hm
+              obtain ⟨x', s', he, hw, _⟩ := matches_one_inv fl _ _ _ rfl hm
               simp only [List.cons.injEq] at he
               obtain ⟨rfl, rfl⟩ := he
               simp only [tokWild] at hw
@@ -631,7 +636,7 @@ theorem wfn_complete (fl : FnFlags) (hper : fl.period = false) :
               | nil =>
                 simp only [disallow_nil, if_true]
                 apply retryC; rw [htk]; intro hm
-                obtain ⟨x, s', he, _, _⟩ := matches_one_inv fl _ _ _ (by simp) hm
+                obtain ⟨x, s', he, _, _⟩ := matches_one_inv fl _ _ _ rfl hm
                 cases he
               | cons x r =>
                 rw [disallow_np fl hper]
@@ -647,7 +652,7 @@ theorem wfn_complete (fl : FnFlags) (hper : fl.period = false) :
                     exact ih prest ⟨some x, r⟩ retry hprest0 (fun c hc => hs0 c (by simp [hc])) hc' (by omega)
                   · simp only [hin, if_false]
                     apply retryC; rw [htk]; intro hm
-                    obtain ⟨x', s', he, hw, _⟩ := matches_one_inv fl _ _ _ (by simp) hm
+                    obtain ⟨x', s', he, hw, _⟩ := matches_one_inv fl _ _ _ rfl hm
                     simp only [List.cons.injEq] at he
                     obtain ⟨rfl, rfl⟩ := he
                     simp only [tokWild, Bool.and_eq_true, classHas] at hw
@@ -655,7 +660,7 @@ theorem wfn_complete (fl : FnFlags) (hper : fl.period = false) :
                 · have hx' : okWild fl x = false := by simpa using hx
                   simp only [hx', Bool.not_false, if_true]
                   apply retryC; rw [htk]; intro hm
-                  obtain ⟨x', s', he, hw, _⟩ := matches_one_inv fl _ _ _ (by simp) hm
+                  obtain ⟨x', s', he, hw, _⟩ := matches_one_inv fl _ _ _ rfl hm
                   simp only [List.cons.injEq] at he
                   obtain ⟨rfl, rfl⟩ := he
                   simp only [tokWild, Bool.and_eq_true] at hw
@@ -667,12 +672,12 @@ theorem wfn_complete (fl : FnFlags) (hper : fl.period = false) :
               | nil =>
                 simp only [disallow_nil, if_true]
                 apply retryC; rw [htk]; intro hm
-                obtain ⟨x, s', he, _, _⟩ := matches_one_inv fl _ _ _ (by simp) hm
+                obtain ⟨x, s', he, _, _⟩ := matches_one_inv fl _ _ _ rfl hm
                 cases he
               | cons x r =>
                 have hlitx : ∀ s', Matches fl (.lit cLB :: toks fl p1) (x :: s') → x = cLB := by
                   intro s' hm
-                  obtain ⟨x', s'', he, hw, _⟩ := matches_one_inv fl _ _ _ (by simp) hm
+                  obtain ⟨x', s'', he, hw, _⟩ := matches_one_inv fl _ _ _ rfl hm
                   simp only [List.cons.injEq] at he
                   obtain ⟨rfl, rfl⟩ := he
                   exact cmpFold_nonletter fl cLB x (by decide) (by decide) hw
